@@ -5,8 +5,10 @@ import (
 	"crypto/rsa"
 	"encoding/base64"
 	"encoding/xml"
+	"errors"
 	"fmt"
 	"html"
+	"io"
 	"net/http/httptest"
 	"strings"
 	"time"
@@ -18,6 +20,7 @@ import (
 	"verif/engine/core"
 	"verif/engine/harness"
 	"verif/engine/samlgen"
+	"verif/engine/sched"
 	"verif/engine/xenc"
 )
 
@@ -259,7 +262,173 @@ func runC08(c *core.Ctx) {
 		}
 	}
 
+	c08Retry(c, layouts, sessions)
+	c08Overlap(c, layouts, sessions)
 	c08SPSide(c)
+}
+
+// failAt is a random source that fails its k-th Read once and serves from inner otherwise.
+type failAt struct {
+	inner io.Reader
+	k, n  int
+}
+
+func (f *failAt) Read(p []byte) (int, error) {
+	f.n++
+	if f.n-1 == f.k {
+		return 0, errors.New("entropy source unavailable")
+	}
+	return f.inner.Read(p)
+}
+
+// c08Retry: the response is built on ONE IdpAuthnRequest whose first attempt fails inside the encryption step (the k-th draw from
+// the random source fails, k = 0..5; or the advertised certificate is unusable) and is then attempted again, as an application
+// retrying WriteResponse would. Whatever the second attempt emits is held to the same oracle.
+func c08Retry(c *core.Ctx, layouts []c08Layout, sessions []c06Session) {
+	c.Group("idp-side-retry-after-failed-encryption")
+	for _, l := range layouts {
+		if !l.advertises {
+			continue
+		}
+		for k := 0; k < 6; k++ {
+			l, k := l, k
+			key := fmt.Sprintf("retry/%s/fail-draw=%d", l.name, k)
+			c.Case(key, func(t *core.T) {
+				t.NonTrivial()
+				md := l.metadata("")
+				sess := sessions[0].s
+				idp := harness.NewIDP("idp1", harness.SPRegistry{md.EntityID: md}, &sess)
+				doc := authnRequestXML(samlgen.S(samlgen.SPEntity), samlgen.S(samlgen.IDPSSO), samlgen.S("2.0"), samlgen.S(samlgen.TS(samlgen.T0)), samlgen.S(samlgen.SPAcs), nil, "id-req-c08-retry")
+				var bodies [][]byte
+				_, p := guard(func() error {
+					req, err := saml.NewIdpAuthnRequest(idp, idpRequest("POST", doc, "relay"))
+					if err != nil {
+						return err
+					}
+					if err := req.Validate(); err != nil {
+						return err
+					}
+					if err := (saml.DefaultAssertionMaker{}).MakeAssertion(req, &sess); err != nil {
+						return err
+					}
+					xmlenc.RandReader = &failAt{inner: harness.NewCtr("c08" + key), k: k}
+					for attempt := 0; attempt < 3; attempt++ {
+						w := httptest.NewRecorder()
+						err := req.WriteResponse(w)
+						t.Impl(1)
+						if err == nil {
+							bodies = append(bodies, w.Body.Bytes())
+						} else if w.Body.Len() > 0 {
+							bodies = append(bodies, w.Body.Bytes()) // something was written although an error is reported
+						}
+					}
+					return nil
+				})
+				if p != "" {
+					t.Fail("C08/retry/panic@"+p[strings.LastIndex(p, "@")+1:], "panicked: %s", p)
+					return
+				}
+				t.Outcome(fmt.Sprintf("emitted=%d", len(bodies)))
+				for i, b := range bodies {
+					if _, ok := c08CheckEmitted(t, l, &sess, b, nil, fmt.Sprintf("%s, emission %d", key, i+1)); !ok {
+						return
+					}
+				}
+				t.Compared()
+			})
+		}
+	}
+}
+
+// gateReader makes every draw of key material a scheduling point of the controlled scheduler (single-byte probes of crypto/rsa are not).
+type gateReader struct{ inner io.Reader }
+
+func (g gateReader) Read(p []byte) (int, error) {
+	if h := sched.Hook(); h != nil && len(p) > 1 {
+		h.Store(fmt.Sprintf("draw %d random bytes", len(p)))
+	}
+	return g.inner.Read(p)
+}
+
+// c08Overlap: two responses for two users are built by two threads on one IdentityProvider; every interleaving of their draws from the
+// random source is explored (controlled scheduler; quick: at most 2 preemptions, thorough: all interleavings). Each emitted response is held to the single-response oracle,
+// and the two content keys and IVs must differ and must not be degenerate.
+func c08Overlap(c *core.Ctx, layouts []c08Layout, sessions []c06Session) {
+	c.Group("idp-side-overlapping-responses")
+	for _, l := range layouts {
+		if !l.advertises || l.mustFail || len(l.decryptors) != 1 {
+			continue
+		}
+		if !c.Thorough() && l.name != "enc" && l.name != "nouse+chain" && l.name != "signing+enc" {
+			continue // quick: three layouts (the draws do not depend on the layout); thorough: all
+		}
+		for _, kinds := range [][2]string{{"sp-initiated", "sp-initiated"}, {"sp-initiated", "idp-initiated"}} {
+			l, kinds := l, kinds
+			key := fmt.Sprintf("overlap/%s/%s+%s", l.name, kinds[0], kinds[1])
+			c.Case(key, func(t *core.T) {
+				t.NonTrivial()
+				md := l.metadata("")
+				s0, s1 := sessions[0].s, sessions[1].s
+				var out [2][]byte
+				var pan [2]string
+				mk := func() []func() {
+					xmlenc.RandReader = gateReader{harness.NewCtr("c08" + key)}
+					out, pan = [2][]byte{}, [2]string{}
+					var bodies []func()
+					for i, ss := range []*saml.Session{&s0, &s1} {
+						i, ss := i, ss
+						idp := harness.NewIDP("idp1", harness.SPRegistry{md.EntityID: md}, ss)
+						bodies = append(bodies, func() { out[i], pan[i] = c08Serve(idp, kinds[i], i) })
+					}
+					return bodies
+				}
+				failed := false
+				pb := 2 // quick: at most two preemptions; thorough: every interleaving
+				if c.Thorough() {
+					pb = -1
+				}
+				st := sched.Explore(mk, pb, 20000, func(x *sched.Execution, choices []int) bool {
+					if failed {
+						return false
+					}
+					before := t.Failed()
+					var keys [2][][]byte
+					for i, ss := range []*saml.Session{&s0, &s1} {
+						if pan[i] != "" || len(x.Panics) > 0 || x.Deadlock {
+							t.Fail("C08/overlap/panic-or-deadlock", "schedule %v: %s %v %s", choices, pan[i], x.Panics, x.DeadlockMsg)
+							failed = true
+							return false
+						}
+						o, ok := c08CheckEmitted(t, l, ss, out[i], nil, fmt.Sprintf("%s, response %d, schedule %v (%s)", key, i+1, choices, strings.Join(x.Trace, " -> ")))
+						if !ok || o == nil {
+							failed = t.Failed() && !before
+							return !failed
+						}
+						keys[i] = o
+					}
+					zero := make([]byte, 32)
+					for i := 0; i < 2; i++ {
+						if bytes.Equal(keys[i][0], zero[:len(keys[i][0])]) {
+							t.Fail("C08/overlap/degenerate-content-key", "%s schedule %v (%s): response %d is encrypted under an all-zero content key", key, choices, strings.Join(x.Trace, " -> "), i+1)
+						}
+					}
+					if bytes.Equal(keys[0][0], keys[1][0]) {
+						t.Fail("C08/overlap/content-key-shared", "%s schedule %v (%s): both responses use the same content-encryption key", key, choices, strings.Join(x.Trace, " -> "))
+					}
+					if bytes.Equal(keys[0][1], keys[1][1]) {
+						t.Fail("C08/overlap/iv-shared", "%s schedule %v: both responses use the same IV", key, choices)
+					}
+					failed = t.Failed() && !before
+					return !failed
+				})
+				t.Evals(st.Executions)
+				t.Impl(st.Executions * 2)
+				t.Outcome(fmt.Sprintf("schedules=%d", st.Executions))
+				t.Sample(map[string]interface{}{"case": key, "schedules": st.Executions, "max_points": st.MaxPoints, "capped": st.Capped})
+				t.Compared()
+			})
+		}
+	}
 }
 
 func wrapLike(l c08Layout, cert string) string {
